@@ -1,10 +1,10 @@
-(* files_on_hub is needed in target-cursor mode: the join is made on the block NUMBER (Spec/C07_More_Spec.v,
-   C07_target_join_by_number_refuted).  The witness is the world of c07_join_by_number_refuted with a target cursor. *)
+(* The target-cursor join by block NUMBER (before the fix "target join on identity"): Spec/C07_TargetUnfixed_Spec.v,
+   C07_target_join_by_number_refuted.  The witness is the world of c07_join_by_number_refuted with a target cursor. *)
 From BV Require Import Base.Prelude Model.Block Model.ForkDB Model.Forkable Model.ForkableLookups
   Model.Burst Model.Hub Model.CursorResolver Model.Joining
   Spec.Consumer Spec.Universe Check.Burst_Check Check.C07_Check Spec.C06_Spec Spec.C07_Spec Spec.C09_Spec
-  Spec.C13_Spec Spec.C07_Compose_Spec Spec.C07_Shapes_Spec Spec.C07_More_Spec
-  Proofs.C07_ComposeCheck Proofs.C07_FullRefuted Proofs.C07_FiltersTarget.
+  Spec.C13_Spec Spec.C07_Compose_Spec Spec.C07_TargetUnfixed_Spec
+  Proofs.C07_ComposeCheck Proofs.C07_FullRefuted.
 Local Open Scope N_scope.
 
 Definition tn_cu : cursor := mkCursor SNew (mkR 8 8) (mkR 8 8) (mkR 6 6).
@@ -13,38 +13,37 @@ Definition tn_c : jcfg := mkJ 2 5 10 2 5 (Some tn_cu) 0 0 0.
 Lemma c07_target_join_by_number_refuted_proof : C07_target_join_by_number_refuted.
 Proof.
   exists na_U, tn_c, na_w, [(10, 4)], 16, na_canon, [], tn_cu, (na_b 8).
-  assert (Hwf : wf_b na_U = true) by (vm_compute; reflexivity).
-  assert (Hlok : lib_ok_b LNone na_U = true) by (vm_compute; reflexivity).
-  assert (Hhub : hub_of_universe na_U tn_c na_w).
+  cbv zeta.
+  split; [vm_compute; reflexivity|]. split; [vm_compute; reflexivity|].
+  split.
   { split.
     - exists []. split; [intros b p []|reflexivity].
     - intros b Hb. vm_compute in Hb. vm_compute. tauto. }
-  assert (Hchain : chain_ok na_canon).
+  split.
   { split.
     - vm_compute. repeat split.
     - apply (NoDup_map_inv (fun x => x)). rewrite map_id. vm_compute.
       repeat (constructor; [cbn; intros K; repeat (destruct K as [K|K]; [discriminate|]); exact K|]). constructor. }
-  assert (Hincl : incl na_canon na_U) by (intros b Hb; unfold na_U; apply in_or_app; left; exact Hb).
-  assert (Htip : eventual_tip tn_c na_w na_canon) by (apply eventual_tip_b_sound; vm_compute; reflexivity).
-  assert (Hto : target_on_chain tn_c na_w tn_cu) by (apply target_on_chain_b_sound; vm_compute; reflexivity).
-  assert (Hbound : Forall (fun b => bnum b < file_bound) (filter (fun b => bnum b <? 16) na_canon)).
+  split; [intros b Hb; unfold na_U; apply in_or_app; left; exact Hb|].
+  split; [apply eventual_tip_b_sound; vm_compute; reflexivity|].
+  split; [apply target_on_chain_b_sound; vm_compute; reflexivity|].
+  split; [reflexivity|]. split; [reflexivity|]. split; [reflexivity|]. split; [reflexivity|]. split; [reflexivity|].
+  split.
   { apply Forall_forall. intros b Hb.
     assert (H : forallb (fun b => bnum b <? file_bound) (filter (fun b => bnum b <? 16) na_canon) = true) by (vm_compute; reflexivity).
     rewrite forallb_forall in H. apply N.ltb_lt. apply H. exact Hb. }
-  assert (HB : In (na_b 8) na_canon) by (vm_compute; tauto).
-  assert (Hstart : exists b, In b na_canon /\ bnum b = run_start tn_c na_w)
-    by (exists (na_b 5); split; [vm_compute; tauto | vm_compute; reflexivity]).
-  assert (Hbad : cons_fold_aside cons0 (map as_new (filter is_nu
-             (fst (stream_run tn_c na_w [(10, 4)] 16 (filter (fun b => bnum b <? 16) na_canon) [])))) = None)
-    by (vm_compute; reflexivity).
-  cbv zeta.
-  split; [exact Hwf|]. split; [exact Hlok|]. split; [exact Hhub|]. split; [exact Hchain|]. split; [exact Hincl|].
-  split; [exact Htip|]. split; [exact Hto|].
-  split; [reflexivity|]. split; [reflexivity|]. split; [reflexivity|]. split; [reflexivity|]. split; [reflexivity|].
-  split; [exact Hbound|]. split; [exact HB|]. split; [reflexivity|]. split; [exact Hstart|].
-  split; [|exact Hbad].
-  intros Hfo.
-  destruct (c07_seamless_target_nu_proof na_U tn_c na_w [(10, 4)] 16 na_canon [] tn_cu (na_b 8) Hwf Hlok Hhub Hchain Hincl
-              Htip Hfo Hto eq_refl eq_refl eq_refl eq_refl Hbound HB eq_refl Hstart) as (c' & Hc' & _).
-  rewrite Hbad in Hc'. discriminate.
+  split; [vm_compute; tauto|]. split; [reflexivity|].
+  split; [exists (na_b 5); split; [vm_compute; tauto | vm_compute; reflexivity]|].
+  split; [vm_compute; reflexivity|].
+  intros E. apply (f_equal (fun x => length (fst x))) in E. vm_compute in E. discriminate.
 Qed.
+
+(* on the same input the model of the code as it is now does not join on the fork: it delivers 15 from the files, which
+   end there (merged_end 16), and holds the merged blocks from 5 on *)
+Example tn_fixed_ok :
+  let res := stream_run tn_c na_w [(10, 4)] 16 (filter (fun b => bnum b <? 16) na_canon) [] in
+  match cons_fold_aside cons0 (map as_new (fst res)) with
+  | Some c' => rev (cs_stack c') = filter (fun b => (5 <=? bnum b) && (bnum b <? 16)) na_canon
+  | None => False
+  end /\ snd res = JNil.
+Proof. vm_compute. split; reflexivity. Qed.
